@@ -32,16 +32,20 @@ def run(ctx):
         cases = []
 
         def add(cal, y, m, d, s, tm, mlen, ref, deflen):
-            cases.append({"cal": cal, "y": y, "m": m, "d": d, "s": s, "tm": tm or [0, 0, 0], "monthLen": mlen, "ref": list(ref), "defLen": deflen})
+            cases.append({"cal": cal, "y": y, "m": m, "d": d, "s": s, "tm": tm or [0, 0, 0, 0], "monthLen": mlen, "ref": list(ref), "defLen": deflen})
 
         def tsuffix():
             r = rng.random()
             if r < 0.5:
                 return "", None
             h, mi, s = rng.randint(0, 23), rng.randint(0, 59), rng.randint(0, 59)
-            if r < 0.75:
-                return " %02d:%02d" % (h, mi), [h, mi, 0]
-            return " %02d:%02d:%02d" % (h, mi, s), [h, mi, s]
+            if r < 0.7:
+                return " %02d:%02d" % (h, mi), [h, mi, 0, 0]
+            if r < 0.88:
+                return " %02d:%02d:%02d" % (h, mi, s), [h, mi, s, 0]
+            digits = rng.choice([1, 2, 3, 6])          # "any clock time in the string": fractions of a second too
+            frac = rng.randint(1, 10 ** digits - 1)
+            return " %02d:%02d:%02d.%0*d" % (h, mi, s, digits, frac), [h, mi, s, frac * 10 ** (6 - digits)]
 
         # ---- Jalali
         jy = [1200, 1201, 1299, 1300, 1348, 1370, 1375, 1379, 1394, 1395, 1399, 1400, 1403, 1404, 1408, 1450, 1499, 1500] + \
